@@ -42,7 +42,7 @@ def expected_mech(announced, authmech):
     return None
 
 
-def check_payload(mech, entry, login, password, authz):
+def check_payload(mech, entry, login, password, authz, realm="ref"):
     """decode what was sent; -> None or text"""
     lb, pb, ab = login.encode("utf-8"), password.encode("utf-8"), authz.encode("utf-8")
     _m, _chan, payload = entry
@@ -70,7 +70,9 @@ def check_payload(mech, entry, login, password, authz):
                 return "DIGEST-MD5 username %r" % fields.get("username")
             if (fields.get("authzid") or "") != authz:
                 return "DIGEST-MD5 authzid %r" % fields.get("authzid")
-            nonce, cnonce, realm = "OA6MG9tEQGm2hh", fields.get("cnonce", ""), "ref"
+            nonce, cnonce, realm = "OA6MG9tEQGm2hh", fields.get("cnonce", ""), (realm or "")
+            if (fields.get("realm") or "") != realm:
+                return "DIGEST-MD5 realm %r sent, the challenge carried %r" % (fields.get("realm"), realm or None)
             a1 = hashlib.md5(("%s:%s:%s" % (login, realm, password)).encode("utf-8")).digest() + (":%s:%s" % (nonce, cnonce)).encode()
             if authz:
                 a1 += b":" + ab
@@ -84,7 +86,7 @@ def check_payload(mech, entry, login, password, authz):
     return None
 
 
-def one(announced, authmech, cred, verdict):
+def one(announced, authmech, cred, verdict, realm="ref"):
     if announced is None:
         caps = [(b"IMPLEMENTATION", b"x"), (b"SIEVE", b"fileinto")]
     else:
@@ -92,6 +94,7 @@ def one(announced, authmech, cred, verdict):
     srv = refms.RefServer(caps_plain=caps, auth_ok=verdict)
     login, password, authz = cred
     srv.digest_users = {login: password}
+    srv.digest_realm = realm
     s = wire.open_session(srv, authmech=authmech, login=login, password=password, authz=authz)
     o = s.connect_outcome
     want = expected_mech(announced, authmech)
@@ -117,7 +120,7 @@ def one(announced, authmech, cred, verdict):
     entry = [e for e in auths if e[0] == want]
     if not entry:
         return ("no-payload", "no %s payload reached the server" % want, want)
-    bad = check_payload(want, entry[0], login, password, authz)
+    bad = check_payload(want, entry[0], login, password, authz, realm)
     if bad:
         return ("payload", bad, want)
     if (o.value is True) != bool(verdict):
@@ -138,15 +141,17 @@ def task(t):
     for announced in lists:
         for authmech in AUTHMECHS:
             for ci, cred in enumerate(CREDS):
-                for verdict in (True, False):
-                    r = one(announced, authmech, cred, verdict)
+                for verdict, realm in ((True, "ref"), (True, None), (False, "other.example"), (False, None), (True, "ref")):
+                    if realm != "ref" and not (announced and "DIGEST-MD5" in announced):
+                        continue
+                    r = one(announced, authmech, cred, verdict, realm)
                     n += 1
                     distinct.add((tuple(announced) if announced is not None else None, authmech, ci, verdict, r[0] if r else None))
                     if r:
                         viols.append({"property": "C16", "engine": "wire",
                                       "signature": ["C16", str(r[2]), "cred%d" % ci if r[0] == "payload" else "any-cred", r[0]],
                                       "what": "announced %r, authmech %r, credentials %r, server says %s: %s" % (announced, authmech, cred, "OK" if verdict else "NO", r[1]),
-                                      "case": {"announced": announced, "authmech": authmech, "cred": ci, "verdict": verdict},
+                                      "case": {"announced": announced, "authmech": authmech, "cred": ci, "verdict": verdict, "realm": realm},
                                       "witness": "SASL %r authmech=%r cred=%r verdict=%s" % (announced, authmech, cred, verdict), "observed": r[1][:160]})
                     elif sample is None and announced and len(announced) > 2 and authmech is None:
                         sample = {"announced": announced, "authmech": authmech, "credentials": list(cred), "chosen": expected_mech(announced, authmech)}
@@ -174,7 +179,9 @@ def run(tier, seed):
 
 def replay(payload):
     c = payload["case"]
-    r = one(c["announced"], c["authmech"], CREDS[c["cred"]], c["verdict"])
+    # realm-bearing and realm-less challenges alternate in one process, as in the exploration
+    one(c["announced"], c["authmech"], CREDS[c["cred"]], True, "ref")
+    r = one(c["announced"], c["authmech"], CREDS[c["cred"]], c["verdict"], c.get("realm", "ref"))
     if r:
         sig = list(payload["signature"])
         sig[3] = r[0]
